@@ -69,6 +69,11 @@ def type_stream(rnd: random.Random, n_random: int):
     out += unions(d1, [2], rnd, 500)
     out += unions(d1 + ATOMS, [3, 4, 6, 7], rnd, 120)
     out += unions(tds + [int, NoneType, Dict[str, int]], [2, 3], rnd, 30)
+    # an EMPTY container's type next to a TypedDict (a generator that yielded {} and a str-keyed dict): the TypedDict is not
+    # a Dict sibling, nothing may be dropped
+    for td in tds[:4]:
+        out += [Union[Dict[Any, Any], td], Union[td, Dict[Any, Any]], Union[Dict[Any, Any], td, int], List[Union[td, Dict[Any, Any]]],
+                Union[List[Any], td], Union[Set[Any], td, Dict[Any, Any]]]
     # homogeneous tuple unions for RewriteLargeUnion._rewrite_to_tuple
     for a in (int, fx.B):
         tups = [Tuple[()]] + [Tuple[tuple([a] * i)] for i in range(1, 8)]
@@ -113,10 +118,35 @@ def type_stream(rnd: random.Random, n_random: int):
         out.append(Union[tuple([Dict[str, v] for v in vs] + [NoneType])])
         out.append(Union[tuple([NoneType] + [Dict[str, v] for v in vs])])
         out.append(Optional[Union[tuple(Dict[int, v] for v in vs)]])
+    # dict unions with an empty dict's type in every position; empty containers after a member that nests a union
+    for vs in ([Dict[str, int], Dict[Any, Any]], [Dict[Any, Any], Dict[str, int]], [Dict[str, int], Dict[str, str], Dict[Any, Any]],
+               [Dict[int, str], Dict[Any, Any], Dict[int, int]]):
+        out.append(Union[tuple(vs)])
+    out += [Dict[int, Union[List[Union[Set[int], str]], Set[Any]]], Union[List[Union[Set[int], str]], Set[Any]],
+            Union[Tuple[Union[List[int], str], int], List[Any]], Union[Dict[str, Union[Dict[str, int], int]], Dict[Any, Any], int],
+            Union[List[Union[List[int], Set[int]]], Set[Any], Dict[Any, Any]]]
+    # containers whose element union is over the limit next to the same container with few element types
+    big = Union[int, str, float, bytes, NoneType, fx.A, Tuple[int, int]]
+    out += [Union[Set[big], Set[int]], Union[Set[int], Set[big]], Union[List[big], Set[big], Set[str]], Dict[str, Union[Set[big], Set[int]]],
+            Union[Tuple[big, int], Tuple[int, int]]]
     # dict unions for RewriteConfigDict
     for vs in ([int, str], [int, str, NoneType], [List[int], int], [int, Dict[str, int]]):
         out.append(Union[tuple(Dict[str, v] for v in vs)])
         out.append(Union[tuple([Dict[str, vs[0]]] + [Dict[int, v] for v in vs[1:]])])
+    # dict unions whose key types are EQUAL BUT NOT IDENTICAL objects (a parametrised key built twice with typing's
+    # subscription cache emptied in between, as happens when many other generics are decoded between two rows)
+    import typing as _typing
+    for mk in (lambda: Type[int], lambda: Tuple[int, str], lambda: Type[fx.A], lambda: Tuple[str, ...]):
+        k1 = mk()
+        for cleanup in _typing._cleanups:
+            cleanup()
+        k2 = mk()
+        for cleanup in _typing._cleanups:
+            cleanup()
+        k3 = mk()
+        if k1 is not k2 and k1 == k2:
+            out.append(Union[Dict[k1, int], Dict[k2, str]])
+            out.append(Union[Dict[k1, int], Dict[k2, str], Dict[k3, NoneType]])
     # depth 2 and 3
     u2 = [t for t in out if getattr(t, "__origin__", None) is Union]
     for _ in range(n_random):
